@@ -5,6 +5,7 @@ import (
 	"fmt"
 	"os"
 	"path/filepath"
+	"runtime"
 	"runtime/debug"
 	"strconv"
 	"strings"
@@ -54,6 +55,14 @@ func scratchRoot() string {
 	return os.TempDir()
 }
 
+// StallLimit is the real time a single run may take before the watchdog
+// declares that it cannot make progress (a run normally takes milliseconds).
+var StallLimit = 90 * time.Second
+
+// onStall is installed by Main: it emits the result of the stalled run and
+// ends the process (a spinning goroutine cannot be stopped from outside).
+var onStall func(rc *RunCtx, stacks string)
+
 // RunOnce executes one run of eng on the given tape.
 func RunOnce(t *testing.T, eng EngineFunc, prop, tier string, seed int64, tape *Tape, quiet bool) *RunCtx {
 	dir, err := os.MkdirTemp(scratchRoot(), "vrun-"+prop+"-")
@@ -64,7 +73,18 @@ func RunOnce(t *testing.T, eng EngineFunc, prop, tier string, seed int64, tape *
 	rc := &RunCtx{Prop: prop, Tier: tier, Seed: seed, Tape: tape, Dir: dir, Quiet: quiet,
 		Res: &RunResult{Prop: prop, Seed: seed}}
 	start := time.Now()
+	var wd *time.Timer
+	if onStall != nil {
+		wd = time.AfterFunc(StallLimit, func() {
+			buf := make([]byte, 4<<20)
+			n := runtime.Stack(buf, true)
+			onStall(rc, string(buf[:n]))
+		})
+	}
 	Guard(rc, func() { eng(t, rc) })
+	if wd != nil {
+		wd.Stop()
+	}
 	rc.Res.WallMs = time.Since(start).Milliseconds()
 	rc.finish()
 	return rc
@@ -109,6 +129,49 @@ func Main(t *testing.T, engines map[string]EngineFunc) {
 		} else {
 			fmt.Println(string(b))
 		}
+	}
+
+	if s, err := strconv.Atoi(os.Getenv("VERIF_STALL_S")); err == nil && s > 0 {
+		StallLimit = time.Duration(s) * time.Second
+	}
+	replayDirStall := os.Getenv("VERIF_REPLAY_DIR")
+	onStall = func(rc *RunCtx, stacks string) {
+		// Keep only goroutines that are running or runnable: those are
+		// the ones that keep the simulated system from becoming quiescent.
+		var keep []string
+		for _, g := range strings.Split(stacks, "\n\n") {
+			if strings.Contains(g, "[running") || strings.Contains(g, "[runnable") {
+				if len(g) > 2500 {
+					g = g[:2500]
+				}
+				keep = append(keep, g)
+			}
+		}
+		if len(keep) > 6 {
+			keep = keep[:6]
+		}
+		detail := fmt.Sprintf("no quiescence within %v of real time: goroutines that never block:\n%s", StallLimit, strings.Join(keep, "\n\n"))
+		res := rc.Res
+		if rc.StallClause != "" && res.Violation == nil {
+			res.Violation = &Violation{Prop: rc.Prop, Clause: rc.StallClause, Facts: rc.StallFacts, Msg: detail}
+			if replayDirStall != "" {
+				rf := &ReplayFile{Prop: rc.Prop, Tier: rc.Tier, Seed: rc.Seed, Tape: rc.Tape.Rec,
+					OrigTapeLen: len(rc.Tape.Rec), Violation: res.Violation, Trace: rc.Trace}
+				p := filepath.Join(replayDirStall, fmt.Sprintf("%s-seed%d-%s.json", rc.Prop, rc.Seed, sanitize(rc.StallClause)))
+				b, _ := json.MarshalIndent(rf, "", " ")
+				if os.WriteFile(p, b, 0644) == nil {
+					res.Replay = p
+				}
+			}
+		} else if res.Violation == nil {
+			res.InfraError = detail
+		}
+		res.TapeLen = rc.Tape.Pos()
+		emit(res)
+		if out != nil {
+			out.Sync()
+		}
+		os.Exit(3)
 	}
 
 	if os.Getenv("VERIF_MODE") == "replay" {
